@@ -29,7 +29,7 @@ impl From<&super::tools::CommonArgs> for ConfirmTokenBinding {
 }
 
 #[derive(Debug, Clone)]
-struct ConfirmTokenEntry {
+pub(super) struct ConfirmTokenEntry {
     binding: ConfirmTokenBinding,
     plan_hash: String,
     expires_at: Instant,
@@ -94,6 +94,17 @@ pub(super) fn validate_token(
 
 pub(super) fn consume_token(store: &mut ConfirmTokenStore, token: &str) {
     store.tokens.remove(token);
+}
+
+/// Claims a token for the duration of an apply: a concurrent call presenting the same token no
+/// longer finds it. Returns `None` if another call already claimed or consumed it.
+pub(super) fn take_token(store: &mut ConfirmTokenStore, token: &str) -> Option<ConfirmTokenEntry> {
+    store.tokens.remove(token)
+}
+
+/// Puts a claimed token back (the apply did not succeed, so the token stays usable).
+pub(super) fn restore_token(store: &mut ConfirmTokenStore, token: String, entry: ConfirmTokenEntry) {
+    store.tokens.entry(token).or_insert(entry);
 }
 
 pub(super) fn compute_confirm_plan_hash(
